@@ -4,7 +4,7 @@ import sys as _sys
 # The engine compiles props/C07.v itself for Print Assumptions (and fails the run if that
 # does not compile), so the quick tier builds only what that compile needs; the thorough
 # tier also builds props/C07.vo for coqchk.
-COQ_TARGETS = ["proofs/WireProofs.vo", "proofs/WireLayoutProofs.vo", "proofs/PoolProofs.vo", "judge/J07.vo", "model/Pack.vo"] + (
+COQ_TARGETS = ["proofs/WireProofs.vo", "proofs/WireLayoutProofs.vo", "proofs/PoolProofs.vo", "proofs/ConnWriterSrc.vo", "judge/J07.vo", "model/Pack.vo"] + (
     ["props/C07.vo"] if "thorough" in _sys.argv else [])
 JUDGE = ("judge.J07", "J07.judge")
 JUDGE_SCOPE = "N_scope"
@@ -27,6 +27,14 @@ RULE = ("(1) pure codecs through verif wrappers: Message.WriteTo, decodeMessage 
         "GOMAXPROCS 1 (quiet) / 2 / all in turn; "
         "(5) a queue write held part-way (livegate): the Put of writeMessageToBackend into a topic's or a channel's disk queue parks in the verif gate after serialisation while 1-4 messages travel all the way through another topic "
         "(two queue writes, read back, delivery, FIN), 2-4 rounds, sizes 8 B..200 KB, same-size and shorter other messages, mem-queue-size 0/1, GOMAXPROCS 1/2/all. "
+        "(6) every writer of one consumer connection's shared output buffer held part-way while the connection's own commands contend for it (liveflush, each case in a process of its own): "
+        "writer in {the output-buffer-timeout flush (output_buffer_size = the round's frames +0/+1/+4096/+100000/-1, capped at the daemon's --max-output-buffer-size, timeout 25/60/250 ms, RDY above in-flight), "
+        "the not-ready force flush (same buffers, RDY = messages per round, timeout off or 30 s), Send (buffer -1/64/16384/65536, smaller than a frame)} x "
+        "contending command in {PUB, NOP+PUB, MPUB, DPUB, FIN/REQ/TOUCH of an id not in flight (error frames), CLS}, every cell on every run; two daemons: default --max-output-buffer-size 64 KiB with frames of 30..64 KiB "
+        "(a round's frames = the buffer exactly, -1 byte, below) and 4 MiB with frames of 200..300 KB, 1-2 frames per round; the consumer behind a 4 KiB receive window / MSS 1400 and the daemon's send buffer for that connection "
+        "fixed at 4 KiB through the verif hook (kernel auto-tuning off: about 12 KB in flight in every round, also for the slow consumers of (4)); "
+        "it reads the head of the round's first frame and stops, sends the command on the same connection, the harness waits until the command has been executed (topic message count) where that is observable, then reads on; "
+        "over the same transport walk, GOMAXPROCS 1/2/all, 4 rounds; the whole stream from SUB to CLOSE_WAIT is judged frame by frame (every message once and byte for byte, exactly one response per command, in order and of the right kind, nothing else, nothing left over). "
         "Every case is non-trivial; distinct = distinct terms.")
 TRUSTED = [
     "Section variables tx/rx standing for the transport (crypto/tls, golang/snappy, compress/flate at any level, bufio of any size, flush policy) with the single assumed law "
@@ -37,8 +45,14 @@ TRUSTED = [
     "go-diskqueue (abstract FIFO of records), time.Now (the timestamp is whatever NewMessage read)",
     "the client side of the frame format is the reader written in model/Wire.v after go-nsq ReadResponse/UnpackResponse; the harness's own raw TCP client (harness/cmd/wiredrive/client.go) implements the same reading",
     "hooks /repo/nsqd/verif_c07.go (build tag verif): wrappers around WriteTo, decodeMessage, writeMessageToBackend, SendFramedResponse, readMPUB; "
-    "/repo/nsqd/verif_c07_gate.go: a forwarding BackendQueue wrapper whose next Put can be parked on entry (livegate cases)",
+    "/repo/nsqd/verif_c07_gate.go: a forwarding BackendQueue wrapper whose next Put can be parked on entry (livegate cases); "
+    "/repo/nsqd/verif_c07_sndbuf.go: SO_SNDBUF of one client connection's socket (liveconc, liveflush: a held write stays held in every round)",
     "generated table coq/gen/WireLayout.v (tools/gotables/wirelayout.go): field/offset/width/endianness/write order read from the syntax of WriteTo, decodeMessage, SendFramedResponse, doMPUB",
+    "modelled, not verified: bufio.Writer (model/ConnWriter.v: Flush hands buf[0:n] as taken at the call to the transport piece by piece, each piece read from the array at that moment, then moves what lies behind to the front; "
+    "finding more than n bytes buffered is a short write) and sync.RWMutex (a goroutine at a locking site waits while another holds the lock); the three Writes of SendFramedResponse and bufio's own flush of a frame that does not fit "
+    "are one atomic append plus the job's flush (they happen inside one Send) -- exercised by the liveflush cases",
+    "generated table coq/gen/WriteLock.v (tools/gotables/writelock.go): every use of a client connection's writer (x.Writer, x.flateWriter, x.Flush() for x of type clientV2) in package nsqd with its enclosing select case / if condition, "
+    "and whether writeLock is held there (syntactic lock tracking through the statements of the function: Lock / Unlock statements, defer Unlock, nested blocks inherit, function literals start unlocked)",
     "generated table coq/gen/PoolUse.v (tools/gotables/pooluse.go): every function of package nsqd that calls bufferPoolGet, and whether its bufferPoolPut is deferred / placed after the last statement that mentions the buffer or an alias of its memory (syntactic alias tracking through assignments); what bufferPoolPut / bufferPoolGet call",
 ]
 ASSUMPTIONS = [
@@ -52,9 +66,13 @@ LEVEL_TEXT = ("Machine-checked proof (Coq 8.16.1) over an executable model of Me
               "exactly the non-empty newline-separated blocks (unterminated last block included) or nothing; EVERY sequence of memory/disk/restart/requeue/copy/delivery hops preserves id, body and timestamp and counts attempts; "
               "one delivery end to end over an arbitrary transport satisfying the stated round-trip law; ids are 16 hex characters, injective in the guid; "
               "pooled serialisation buffers (SendMessage, writeMessageToBackend): for EVERY number of concurrent calls, EVERY interleaving of their steps, EVERY choice of the pool and EVERY cut of the writes, a call's sink receives exactly that call's record "
-              "under the release discipline read from the source (and not under release-before-write). Layout constants, the field/offset table and the pool-use table are regenerated from the Go source on every run. "
+              "under the release discipline read from the source (and not under release-before-write); "
+              "the connection's shared buffered writer (Send, the not-ready flush and the timed flush of messagePump): for EVERY number of goroutines, EVERY program of sends and flushes, EVERY interleaving and EVERY cut of the transport's writes, "
+              "what reaches the transport is the concatenation of whole frames, each goroutine's frames once and in its order, and no flush sees a short write, under the lock discipline read from the source (and not with the lock missing from the timed flush alone). "
+              "Layout constants, the field/offset table, the pool-use table and the write-lock table are regenerated from the Go source on every run. "
               "Tied to the code by differential correspondence on the real functions and on live daemons over every negotiated transport combination.")
 LEVEL_NOTE = ("Partial: compression/TLS libraries and bufio are assumed correct (one round-trip law, exercised live on every run); sync.Pool / bytes.Buffer semantics and the sinks' no-retention are assumed (exercised by deliveries and queue writes held part-way while other traffic runs); "
+              "bufio.Writer.Flush and the mutex are modelled (exercised by every kind of write of a connection held part-way while the connection's own commands are answered); "
               "the history-level body-path statement over the nsqd state machine is Core's. Trusted: Coq kernel + vm_compute; gotables; the verif hooks; the harness's raw TCP client; correspondence is sampled, the theorems are not.")
 TECHNIQUE = "Coq proofs (codec inverses, self-delimiting stream, all-or-nothing parsing, hop-sequence invariant) + generated layout table + differential correspondence on real code and live daemons"
 DESIGN_REF = "DESIGN.md §5 C07"
@@ -68,9 +86,9 @@ SEARCH_SCALE = 1 if "thorough" in _sys.argv else 8
 def drivers():
     def args(tier, seed, scale):
         if tier == "quick":
-            n, nh, nl, nb, big, nt, nc, ng = 220 * scale, 70 * scale, 26 * scale, 3, 8, 2, 6 * scale, 6 * scale
+            n, nh, nl, nb, big, nt, nc, ng, nf = 220 * scale, 70 * scale, 26 * scale, 3, 8, 2, 6 * scale, 6 * scale, 6 * scale
         else:
-            n, nh, nl, nb, big, nt, nc, ng = 3000 * scale, 800 * scale, 400 * scale, 12, 40, 20, 90 * scale, 90 * scale
-        return ["-n", str(n), "-http", str(nh), "-live", str(nl), "-livebig", str(nb), "-livetmo", str(nt), "-liveconc", str(nc), "-livegate", str(ng), "-big", str(big),
+            n, nh, nl, nb, big, nt, nc, ng, nf = 3000 * scale, 800 * scale, 400 * scale, 12, 40, 20, 90 * scale, 90 * scale, 96 * scale
+        return ["-n", str(n), "-http", str(nh), "-live", str(nl), "-livebig", str(nb), "-livetmo", str(nt), "-liveconc", str(nc), "-livegate", str(ng), "-liveflush", str(nf), "-big", str(big),
                 "-httpedge", "1" if tier == "quick" else "2", "-seed", str(seed)]
     return [{"driver": "wiredrive", "args": args, "replay_args": lambda tier: []}]
